@@ -5,7 +5,8 @@ import ast
 import itertools
 
 from ..core import Run, AnalysisError, dotted, norm
-from ..alg import T, num, var, op, normalize, substitute, same, same_terms, C, Rat
+from fractions import Fraction
+from ..alg import T, num, var, op, normalize, substitute, same, same_terms, C, Rat, eval_term
 from ..reader import ExprReader, SYSTEMS
 from ..pyreader import static_methods, PyReader, VVal, Sys, Raised
 from ..dim import World
@@ -137,6 +138,7 @@ def check(run: Run) -> None:
         ("T5", "Vector.rebase / ScalarField.rebase hand sympy the transformation with all three base scalars replaced at once, in opposite directions"),
         ("T6", "scale factors and orientation used by C12 follow from the transformation table"),
         ("T7", "evaluating an expression-backed field at a point replaces every base scalar by the point's coordinate (0 for a missing one)"),
+        ("T10", "a field built by VectorField.from_vector / ScalarField.from_expression gives the same answer every time it is applied"),
         ("T8", "... simultaneously: coordinates that mention the system's own base scalars (trajectories such as [y, x + 5]) are not substituted again"),
     ]:
         run.rule(rid, text)
@@ -234,6 +236,26 @@ def check(run: Run) -> None:
                     sq = op("add", sq, op("mul", x, x))
                 if isinstance(mg, Raised) or not same_terms(op("mul", mg, mg), sq):
                     run.violate("T2", f"{AR}:vector_magnitude:{kind}[{m}]", amod, amod.tree, f"the magnitude of a {kind.lower()} vector with {m} components differs from the Cartesian magnitude")
+                if m >= 1:
+                    # ... and it is a magnitude: non-negative also for a negative radial component (scale_vector(-1, v) produces one), where the comparison of squares is blind
+                    run.ob("T2", f"magnitude-sign:{kind}[{m}]")
+                    A3 = VVal([num(-3)] + [var(f"a{i}") for i in range(1, m)], cs)
+                    ca3 = to_cart(kind, A3.components)
+                    sq3 = num(0)
+                    for x in ca3:
+                        sq3 = op("add", sq3, op("mul", x, x))
+                    mg3 = call("vector_magnitude", A3)
+                    ok3 = not isinstance(mg3, Raised) and same_terms(op("mul", mg3, mg3), sq3)
+                    if ok3:
+                        try:
+                            val = eval_term(substitute(mg3, {f"a{i}": num(Fraction(1 + i, 3)) for i in range(1, m)}), {})
+                            ok3 = abs(val.imag) < 1e-12 and val.real > 0
+                        except (AnalysisError, ZeroDivisionError, ValueError, TypeError):
+                            ok3 = True  # not decidable numerically: the squares agreed, nothing is reported
+                    if not ok3:
+                        run.violate("T2", f"{AR}:vector_magnitude:{kind}[{m}]:sign", amod, amod.tree,
+                                    f"the magnitude of the {kind.lower()} vector with radial component -3 is not the (positive) Cartesian magnitude: "
+                                    f"{'raises ' + mg3.exc if isinstance(mg3, Raised) else repr(mg3)[:120]}")
     # ---- T6
     for kind in ("CYLINDRICAL", "SPHERICAL"):
         if (kind, "CARTESIAN") not in tables:
@@ -258,6 +280,7 @@ def check(run: Run) -> None:
             run.violate("T6", f"{CS}:orientation:{kind}", mod, fn, f"the Jacobian determinant of the {kind.lower()} table ({det!r}) is not s*h1*h2*h3 with s = {sign}")
     # ---- T4 (by evaluation): a field whose point function is a callable is applied to a point of every class under every system kind
     _t4(run)
+    _t9_factories(run)
     # ---- T5 / T7 / T8: the substitution steps, evaluated abstractly (whatever their code shape)
     _substitutions(run, tables)
 
@@ -412,6 +435,96 @@ class T4Reader(PyReader):
         return NotImplemented
 
 
+def _t9_factories(run: Run) -> None:
+    """T9: coordinates_transform / coordinates_rotate EVALUATED on a system that is a root and on one that has a parent (a rotated frame): the new SymPy system is created
+    FROM the given system's own CoordSys3D (create_new / orient_new_axis on it), so it keeps that system's origin and orientation - not from its parent, not from nothing"""
+    from ..pyreader import static_methods
+    run.rule("T9", "coordinates_transform and coordinates_rotate derive the new system from the given system's own CoordSys3D (same origin and orientation), whatever parents it has")
+    mod = run.src.need(CS)
+    cls = next((c_ for c_ in mod.tree.body if isinstance(c_, ast.ClassDef) and c_.name == "CoordinateSystem"), None)
+    run.require(cls is not None, "CoordinateSystem not found")
+
+    class _Sym3D:
+        def __init__(self, tag, parent=None):
+            self.tag, self.parent = tag, parent
+
+    class _CSObj:
+        def __init__(self, kind, inner):
+            self.kind, self.inner = kind, inner
+
+    class R(PyReader):
+
+        def __init__(self):
+            super().__init__(mod.tree, "coordinate_systems.py", depth_limit=6)
+            self.created = []
+
+        def hook_attr(self, base, attr, n):
+            if isinstance(base, _CSObj) and attr in ("coord_system", "_coord_system"):
+                return base.inner
+            if isinstance(base, _CSObj) and attr in ("coord_system_type", "_coord_system_type"):
+                return ("kind", base.kind)
+            if isinstance(base, _Sym3D) and attr in ("_parent", "parent"):
+                return base.parent
+            if isinstance(base, _Sym3D) and attr in ("_root", ):
+                r_ = base
+                while r_.parent is not None:
+                    r_ = r_.parent
+                return r_
+            return NotImplemented
+
+        def hook_method(self, base, attr, args, kwargs, n):
+            if isinstance(base, _Sym3D) and attr in ("create_new", "orient_new_axis", "orient_new", "locate_new"):
+                new_ = _Sym3D(f"{attr}({base.tag})", parent=base)
+                self.created.append((attr, base, list(args), dict(kwargs), new_))
+                return new_
+            return NotImplemented
+
+        def hook_call(self, n, env, fns):
+            f_ = dotted(n.func) or ""
+            name = f_.split(".")[-1]
+            if name == "next_name" and name not in self.functions:
+                return "NAME"
+            if name == "CoordinateSystem" and len(n.args) >= 1:
+                args = [self.ev(a, env, fns) for a in n.args]
+                kw_ = {k.arg: self.ev(k.value, env, fns) for k in n.keywords if k.arg}
+                kind = args[0][1] if isinstance(args[0], tuple) and args[0][:1] == ("kind", ) else None
+                inner = args[1] if len(args) > 1 else kw_.get("inner")
+                return _CSObj(kind, inner)
+            if name == "CoordSys3D" and name not in self.functions:
+                new_ = _Sym3D("CoordSys3D()", parent=None)
+                self.created.append(("CoordSys3D", None, [], {}, new_))
+                return new_
+            return NotImplemented
+
+    root = _Sym3D("root")
+    child = _Sym3D("rotated", parent=root)
+    for fname, extra, method in (("coordinates_transform", [("kind", "CYLINDRICAL")], "create_new"), ("coordinates_transform", [("kind", "SPHERICAL")], "create_new"),
+                                 ("coordinates_rotate", [var("alpha"), var("axis")], None)):
+        if not any(isinstance(f_, ast.FunctionDef) and f_.name == fname for f_ in mod.tree.body):
+            raise AnalysisError(f"C11/T9: {fname} not found")
+        for label, inner in (("a root system", root), ("a system with a parent (a rotated frame)", child)):
+            run.ob("T9", f"{fname}:{label}")
+            rd = R()
+            rd.extern_static = static_methods(cls)
+            try:
+                got = rd.call(fname, [_CSObj("CARTESIAN", inner)] + list(extra))
+            except Raised as r_:
+                run.violate("T9", f"{CS}:{fname}:raises", mod, mod.tree, f"{fname} raises {r_.exc} for {label}")
+                continue
+            ok = isinstance(got, _CSObj) and isinstance(got.inner, _Sym3D) and got.inner.parent is inner and got.inner is not inner
+            if ok and method == "create_new":
+                made = next((c_ for c_ in rd.created if c_[4] is got.inner), None)
+                # same axes: no transformation between the given system and the new one (the curvilinear scalars are expressed by the library's own tables)
+                tr = made[3].get("transformation", None) if made else "?"
+                ok = made is not None and made[0] == "create_new" and tr is None
+            if not ok:
+                how = "nothing" if not isinstance(got, _CSObj) or not isinstance(got.inner, _Sym3D) else (got.inner.parent.tag if got.inner.parent is not None else "no system at all")
+                run.violate("T9", f"{CS}:{fname}:origin", mod, mod.tree,
+                            f"{fname} on {label} does not derive the new system from the given system's own CoordSys3D (it is derived from {how}): the new system loses the "
+                            f"orientation / origin of the frame it is a re-description of, so Cartesian -> curvilinear -> Cartesian no longer returns the original components")
+                break
+
+
 def _t4(run: Run) -> None:
     expected = {"CartesianPoint": "CARTESIAN", "SpherePoint": "SPHERICAL", "CylinderPoint": "CYLINDRICAL"}
     for modname, cls in (("symplyphysics.core.fields.scalar_field", "ScalarField"), ("symplyphysics.core.fields.vector_field", "VectorField")):
@@ -489,6 +602,50 @@ def _substitutions(run: Run, tables: dict) -> None:
                                 f"evaluating an expression-backed {'vector' if vector else 'scalar'} field at a point with {npt} coordinates is not the simultaneous replacement of "
                                 f"all three base scalars by the point's coordinates: {why}; got {('raises ' + got.exc) if isinstance(got, Raised) else repr(gl)[:160]}")
                     break
+    # ---- T10: a field built from a vector / an expression answers the same every time it is applied (the point function keeps nothing that a traversal uses up)
+    run.ob("T10", "VectorField.from_vector:applied-twice")
+    run.ob("T10", "ScalarField.from_expression:applied-twice")
+    for modname, cname, maker, vector in ((VF, "VectorField", "from_vector", True), (SF, "ScalarField", "from_expression", False)):
+        m = run.src.need(modname)
+        mm = _methods_module(m, cname)
+
+        class _MakerReader(SubsReader):
+
+            def hook_call(self, n, env, fns):
+                name = (dotted(n.func) or "").split(".")[-1]
+                if name == cname and n.args and name not in self.functions:
+                    return ("field", self.ev(n.args[0], env, fns))
+                if name == "sympify" and n.args and name not in self.functions:
+                    return self.ev(n.args[0], env, fns)
+                return super().hook_call(n, env, fns)
+
+            def apply_value(self, fval, args, n, fns, kwargs=None):
+                if isinstance(fval, tuple) and len(fval) == 2 and fval[0] == "extfn" and fval[1] == "sympify":
+                    return args[0]
+                return super().apply_value(fval, args, n, fns, kwargs)
+
+        exprs = [_generic_expr(sc, f"e{j}") for j in range(3 if vector else 1)]
+        coords = [var(f"g{i}") for i in range(3)]
+        want = [substitute(e, {sc[k].val: coords[k] for k in range(3)}) for e in exprs]
+        R = _MakerReader(mm, modname.rsplit(".", 1)[1] + ".py", tables)
+        try:
+            fld = R.call(maker, [VVal(list(exprs), cs)] if vector else [exprs[0], cs])
+            pf = fld[1] if isinstance(fld, tuple) and fld and fld[0] == "field" else None
+            if pf is None:
+                raise AnalysisError(f"C11/T10: {cname}.{maker} does not construct a {cname} from a point function")
+            answers = [R.apply_value(pf, [_Point(list(coords))], m.tree, {}) for _ in range(2)]
+        except Raised as r:
+            answers = [r, r]
+        for k_, got in enumerate(answers):
+            gl = got if vector else [got]
+            ok = not isinstance(got, Raised) and isinstance(gl, list) and len(gl) == len(want) and all(isinstance(x, (T, int)) and same_terms(x, y) for x, y in zip(gl, want))
+            if not ok:
+                run.violate("T10", f"{modname}:{cname}.{maker}:application-{k_ + 1}", m, m.tree,
+                            f"a field built by {cname}.{maker} answers its {'first' if k_ == 0 else 'SECOND'} application with "
+                            f"{('raises ' + got.exc) if isinstance(got, Raised) else repr(gl)[:120]} instead of the expression with the point's coordinates inserted"
+                            + ("; the first application was right: the point function keeps an iterator (map / generator) that the first traversal used up, "
+                               "so curl F read after div(curl F) has no components" if k_ == 1 else ""))
+                break
     # ---- T5: Vector.rebase hands sympy a vector whose components are the transformation applied to its own components
     vm = run.src.need(VM)
     vmod = _methods_module(vm, "Vector")
